@@ -1,6 +1,657 @@
-//! C03 — not built yet.
-use vcommon::Args;
+//! C03 — the D-Bus decoder accepts exactly the valid encodings.
+//!
+//! Spaces (all enumerated completely, fixed order):
+//! (a) for every single complete type with ≤ 2 signature nodes: EVERY byte string of length ≤ L over
+//!     the byte alphabet {00,01,02,04,08,'a','/',80,ff}, plus every string of length exactly L
+//!     followed by 8 zero bytes (so that 8-byte values and short strings/arrays complete), both
+//!     byte orders, several start offsets;
+//! (b) for every reference encoding of the C01 corpus (types ≤ 3 nodes, `rv::values`): every
+//!     single-byte substitution over the alphabet at every position and every truncation (thorough:
+//!     also every pair of substitutions within an 8-byte window);
+//! (c) every string of length ≤ K over the signature alphabet "ybisogvha(){}" used as the
+//!     signature of a variant (body: the reference encoding of the type's first value when the
+//!     signature is a valid single complete type, zero bytes otherwise), as the value of a `g`, and
+//!     as the value of a `g` inside a variant.
+//! Oracle: each real decode route (`variant`: as a `zvariant::Value` after a variant header,
+//! `dyn`: typed Rust targets / `Array` / `Structure`, `serde`: generic serde seed — see zvx.rs)
+//! succeeds ⇔ `refdbus::decode` accepts a prefix of the bytes; on success the value and the
+//! consumed length agree. Trailing bytes are allowed, floats compare bitwise, repeated dict keys
+//! are normalised on both sides, the 64 MiB array limit is not judged.
 
-pub fn main(_args: &Args) -> i32 {
-    vcommon::machinery_failure("C03: check not built yet")
+use serde_json::json;
+use vcommon::{hex, unhex, Args, Report, Violation};
+
+use crate::{
+    refdbus::{self, Reject},
+    rv::{self, FdTable, Ty, RV},
+    zvx::{self, Acc, ALPHABET},
+};
+
+const CAP: usize = 64;
+const SIG_ALPHABET: &[u8] = b"ybisogvha(){}";
+
+fn kind(ty: &Ty) -> &'static str {
+    match ty {
+        Ty::Array(_) => "array",
+        Ty::Dict(..) => "dict",
+        Ty::Struct(_) => "struct",
+        Ty::V => "variant",
+        Ty::Maybe(_) => "maybe",
+        Ty::H => "fd",
+        Ty::S | Ty::O | Ty::G => "string-like",
+        Ty::B => "bool",
+        _ => "fixed",
+    }
+}
+
+/// Why the reference rejects a signature string (only used to give violations a narrow identity).
+fn sig_defect(s: &str) -> &'static str {
+    if refdbus::valid_signature(s) {
+        return "valid";
+    }
+    // would it be valid if dict keys were allowed to be any complete type?
+    fn relaxed(b: &[u8], i: &mut usize) -> bool {
+        let Some(c) = b.get(*i) else { return false };
+        *i += 1;
+        match c {
+            b'y' | b'b' | b'n' | b'q' | b'i' | b'u' | b'x' | b't' | b'd' | b's' | b'o' | b'g' | b'v' | b'h' => true,
+            b'a' => {
+                if b.get(*i) == Some(&b'{') {
+                    *i += 1;
+                    if !relaxed(b, i) || !relaxed(b, i) {
+                        return false;
+                    }
+                    if b.get(*i) != Some(&b'}') {
+                        return false;
+                    }
+                    *i += 1;
+                    true
+                } else {
+                    relaxed(b, i)
+                }
+            }
+            b'(' => {
+                let mut n = 0;
+                while b.get(*i) != Some(&b')') {
+                    if !relaxed(b, i) {
+                        return false;
+                    }
+                    n += 1;
+                }
+                *i += 1;
+                n > 0
+            }
+            _ => false,
+        }
+    }
+    let b = s.as_bytes();
+    let mut i = 0;
+    let mut ok = true;
+    while i < b.len() {
+        if !relaxed(b, &mut i) {
+            ok = false;
+            break;
+        }
+    }
+    if ok {
+        "dict-key-not-basic"
+    } else {
+        "malformed"
+    }
+}
+
+/// Narrow class of a reference rejection.
+fn reject_class(info: &refdbus::RejectInfo, bytes: &[u8]) -> (String, Option<&'static str>) {
+    match info.reject {
+        Reject::NoNul => ("string-terminator".into(), None),
+        Reject::Short if info.note == "terminator" => ("string-terminator".into(), None),
+        Reject::Short => ("truncated".into(), None),
+        Reject::Padding => ("padding".into(), None),
+        Reject::Bool => ("bool".into(), None),
+        Reject::Utf8 => ("utf8".into(), None),
+        Reject::InteriorNul => ("interior-nul".into(), None),
+        Reject::ObjectPath => ("object-path".into(), None),
+        Reject::Signature | Reject::VariantSignature => {
+            // recover the signature string the reference was looking at: it ends right before the
+            // terminator that precedes fail_pos
+            let end = info.pos.saturating_sub(1).min(bytes.len());
+            let mut start = end;
+            while start > 0 && end - (start - 1) <= 255 && bytes[start - 1] as usize != end - start {
+                start -= 1;
+            }
+            let s = std::str::from_utf8(&bytes[start.min(end)..end]).unwrap_or("");
+            if info.reject == Reject::Signature {
+                ("signature".into(), Some(sig_defect(s)))
+            } else if s.is_empty() {
+                ("variant-signature".into(), Some("empty"))
+            } else {
+                ("variant-signature".into(), Some("several-complete-types"))
+            }
+        }
+        Reject::ArrayBoundary => ("array-boundary".into(), None),
+        Reject::ArrayTooLong => ("truncated".into(), None),
+        Reject::Depth => ("depth".into(), None),
+        Reject::FdIndex => ("fd-index".into(), None),
+    }
+}
+
+fn key_eq(a: &RV, b: &RV) -> bool {
+    match (a, b) {
+        (RV::D(x), RV::D(y)) => x == y || f64::from_bits(*x) == f64::from_bits(*y),
+        _ => zvx::rv_same(a, b),
+    }
+}
+
+/// Repeated keys: keep the first key, the last value (what a map that overwrites does). Keys are
+/// compared bitwise, floats additionally numerically (0.0 and -0.0 are one key for zvariant's Dict).
+fn norm_dicts(v: &RV) -> RV {
+    match v {
+        RV::Dict(k, vt, xs) => {
+            let mut out: Vec<(RV, RV)> = vec![];
+            for (kk, vv) in xs {
+                let kk = norm_dicts(kk);
+                let vv = norm_dicts(vv);
+                if let Some(slot) = out.iter_mut().find(|(k0, _)| key_eq(k0, &kk)) {
+                    slot.1 = vv;
+                } else {
+                    out.push((kk, vv));
+                }
+            }
+            RV::Dict(k.clone(), vt.clone(), out)
+        }
+        RV::Array(e, xs) => RV::Array(e.clone(), xs.iter().map(norm_dicts).collect()),
+        RV::Struct(xs) => RV::Struct(xs.iter().map(norm_dicts).collect()),
+        RV::V(b) => RV::V(Box::new((b.0.clone(), norm_dicts(&b.1)))),
+        _ => v.clone(),
+    }
+}
+
+struct Unit<'a> {
+    ty: &'a Ty,
+    /// variant header `[len] sig \0` for the `variant` route
+    hdr: Vec<u8>,
+    has_fd: bool,
+}
+
+impl<'a> Unit<'a> {
+    fn new(ty: &'a Ty) -> Self {
+        let sig = ty.sig();
+        let mut hdr = vec![sig.len() as u8];
+        hdr.extend_from_slice(sig.as_bytes());
+        hdr.push(0);
+        Unit {
+            ty,
+            hdr,
+            has_fd: *ty == Ty::V || ty.contains(&|t| matches!(t, Ty::H | Ty::V)),
+        }
+    }
+}
+
+struct Opts<'a> {
+    only_route: Option<&'a str>,
+    verbose: bool,
+}
+
+/// Evaluate one input on all routes.
+#[allow(clippy::too_many_arguments)]
+fn evaluate(
+    acc: &mut Acc,
+    part: &'static str,
+    u: &Unit<'_>,
+    bytes: &[u8],
+    be: bool,
+    base: usize,
+    fds: &FdTable,
+    scratch: &mut Vec<u8>,
+    opts: &Opts<'_>,
+) {
+    let ty = u.ty;
+    let n_fds = zvx::N_FDS;
+    let reference = refdbus::decode_ex(ty, bytes, be, base, n_fds as u32);
+    if opts.verbose {
+        match &reference {
+            Ok((v, n)) => println!("reference: accepts, value {} consumed {n}", v.show()),
+            Err(i) => println!(
+                "reference: rejects ({:?}) while reading {} of type `{}` at byte {}",
+                i.reject, i.note, i.ty, i.pos
+            ),
+        }
+    }
+    if let Err(i) = &reference {
+        // The statement does not mention the 64 MiB array limit, so it is not judged as such. In a
+        // buffer shorter than that an array announcing more than 64 MiB is invalid anyway: its
+        // elements cannot all be there (class `truncated`). Longer buffers are not judged.
+        if i.reject == Reject::ArrayTooLong && bytes.len() >= (1 << 26) {
+            acc.outcome("not-judged:array-length-limit");
+            return;
+        }
+    }
+    // non-trivial: accepted, or rejected for a reason other than running out of input
+    let ref_norm = reference.as_ref().ok().map(|(v, n)| (norm_dicts(v), *n));
+    match &reference {
+        Ok((_, n)) => {
+            acc.nontrivial.insert(vcommon::hash64(&(ty.sig(), be, base % 8, "ok", &bytes[..*n])));
+        }
+        Err(i) if i.reject != Reject::Short => {
+            let upto = (i.pos + 1).min(bytes.len());
+            acc.nontrivial
+                .insert(vcommon::hash64(&(ty.sig(), be, base % 8, format!("{:?}", i.reject), &bytes[..upto])));
+        }
+        _ => {}
+    }
+    let fdmap = |raw: i32| zvx::fd_index(fds, raw);
+    let fdmap: zvx::FdMap<'_> = if u.has_fd { &fdmap } else { &|_| u32::MAX };
+
+    let routes: [&str; 3] = ["variant", "dyn", "serde"];
+    for route in routes {
+        if opts.only_route.map(|o| o != route).unwrap_or(false) {
+            continue;
+        }
+        if route == "dyn" && !zvx::dyn_decodable(ty) {
+            continue;
+        }
+        acc.evals += 1;
+        let (real, hdr_len) = if route == "variant" {
+            let h = u.hdr.len();
+            // start the Data so that the body begins at an absolute position ≡ base (mod 8); only
+            // the position modulo 8 matters (largest alignment)
+            let p0 = (base % 8 + 8 * h.div_ceil(8) - h) % 8;
+            scratch.clear();
+            scratch.extend_from_slice(&u.hdr);
+            scratch.extend_from_slice(bytes);
+            let d = zvx::data_with_fds(scratch, zvx::ctxt(false, be, p0), fds, n_fds);
+            let r = zvx::dec_variant(&d, fdmap).map(|(v, n)| match v {
+                RV::V(b) => (b.1, b.0, n),
+                other => (other, Ty::V, n),
+            });
+            (r.map(|(v, t, n)| (v, Some(t), n)), h)
+        } else {
+            let d = zvx::data_with_fds(bytes, zvx::ctxt(false, be, base), fds, n_fds);
+            let r = if route == "dyn" { zvx::dec_dyn(ty, &d, fdmap) } else { zvx::dec_serde(ty, &d, fdmap) };
+            (r.map(|(v, n)| (v, None, n)), 0)
+        };
+        if opts.verbose {
+            match &real {
+                Ok((v, t, n)) => println!(
+                    "real route {route}: accepts, value {}{} consumed {}{}",
+                    v.show(),
+                    t.as_ref().map(|t| format!(" of type `{}`", t.sig())).unwrap_or_default(),
+                    n - hdr_len.min(*n),
+                    if hdr_len > 0 { format!(" (+{hdr_len} header)") } else { String::new() }
+                ),
+                Err(e) => println!("real route {route}: rejects: {e}"),
+            }
+        }
+        let replay = || {
+            json!({"sig": ty.sig(), "bytes": hex(bytes), "big_endian": be, "offset": base, "route": route, "part": part})
+        };
+        let what = || {
+            format!(
+                "type `{}` bytes {} {} offset {base} route {route} [{part}]",
+                ty.sig(),
+                hex(bytes),
+                if be { "BE" } else { "LE" }
+            )
+        };
+        match (&reference, &real) {
+            (Err(info), Err(e)) => {
+                if zvx::is_panic(e) {
+                    acc.outcome(&format!("{route}:panic"));
+                    acc.violation(
+                        Violation::new(
+                            "panic-instead-of-error",
+                            format!("{}: invalid ({:?}) and the real decoder panicked: {e}", what(), info.reject),
+                            replay(),
+                        )
+                        .feat("route", route)
+                        .feat("where", e.split(':').nth(0).unwrap_or("").trim_start_matches("PANIC at ")),
+                    );
+                } else {
+                    acc.outcome(&format!("{route}:both-reject:{}", reject_class(info, bytes).0));
+                }
+            }
+            (Ok((_, _)), Ok((v, t, n))) => {
+                let (rv_ref, n_ref) = ref_norm.as_ref().unwrap();
+                let mut ok = true;
+                if !zvx::rv_same(&norm_dicts(v), rv_ref) || t.as_ref().map(|t| t != ty).unwrap_or(false) {
+                    ok = false;
+                    acc.violation(
+                        Violation::new(
+                            "value-differs",
+                            format!("{}: real decodes {} but the encoding denotes {}", what(), v.show(), rv_ref.show()),
+                            replay(),
+                        )
+                        .feat("route", route)
+                        .feat("kind", kind(ty)),
+                    );
+                }
+                if *n != n_ref + hdr_len {
+                    ok = false;
+                    acc.violation(
+                        Violation::new(
+                            "consumed-differs",
+                            format!("{}: real reports {} bytes consumed, the encoding is {n_ref} bytes long", what(), n - hdr_len.min(*n)),
+                            replay(),
+                        )
+                        .feat("route", route)
+                        .feat("kind", kind(ty)),
+                    );
+                }
+                acc.outcome(&format!("{route}:both-accept{}", if ok { "" } else { ":differ" }));
+            }
+            (Err(info), Ok((v, _, n))) => {
+                let (class, form) = reject_class(info, bytes);
+                acc.outcome(&format!("{route}:ACCEPTS-INVALID:{class}"));
+                // was the offending item decoded by zvariant's Value machinery or by a typed target?
+                let via = if route == "variant"
+                    || info.in_variant
+                    || (route == "dyn" && matches!(ty, Ty::Array(_) | Ty::Struct(_) | Ty::V))
+                {
+                    "value"
+                } else {
+                    "typed"
+                };
+                let mut viol = Violation::new(
+                    "accepts-invalid",
+                    format!(
+                        "{}: not a valid encoding ({:?} while reading {} of `{}` at byte {}) but the real decoder accepts it as {} ({} bytes)",
+                        what(), info.reject, info.note, info.ty, info.pos, v.show(), n - hdr_len.min(*n)
+                    ),
+                    replay(),
+                )
+                .feat("route", route)
+                .feat("class", &class)
+                .feat("at", info.ty.chars().next().unwrap_or('?'))
+                .feat("via", via);
+                if let Some(f) = form {
+                    viol = viol.feat("form", f);
+                }
+                acc.violation(viol);
+            }
+            (Ok((rv_ref, n_ref)), Err(e)) => {
+                acc.outcome(&format!("{route}:REJECTS-VALID"));
+                acc.violation(
+                    Violation::new(
+                        if zvx::is_panic(e) { "panic-on-valid" } else { "rejects-valid" },
+                        format!(
+                            "{}: a valid encoding of {} ({n_ref} bytes) but the real decoder fails: {e}",
+                            what(),
+                            rv_ref.show()
+                        ),
+                        replay(),
+                    )
+                    .feat("route", route)
+                    .feat("kind", kind(ty))
+                    .feat("error", zvx::err_class(e)),
+                );
+            }
+        }
+    }
+}
+
+// ------------------------------------------------------------------------------------------
+// part (a)
+// ------------------------------------------------------------------------------------------
+
+fn part_a(report: &Report, args: &Args) {
+    let l = args.tier.pick(5, 7);
+    let offsets: &[usize] = args.tier.pick(&[0, 3, 6], &[0, 1, 3, 6]);
+    let types = rv::all_types(2, false);
+    let k = ALPHABET.len();
+    let total = vcommon::enumerate::count_strings(k, l);
+    let first_full = total - k.pow(l as u32); // index of the first string of length exactly L
+    const BLOCK: usize = 1 << 15;
+    let mut units = vec![];
+    for ti in 0..types.len() {
+        for be in [false, true] {
+            for &off in offsets {
+                let mut s = 0;
+                while s < total {
+                    units.push((ti, be, off, s, (s + BLOCK).min(total)));
+                    s += BLOCK;
+                }
+            }
+        }
+    }
+    report.set("a_types", json!(types.len()));
+    report.set("a_max_len", json!(l));
+    report.set("a_strings_per_type_endian_offset", json!(total + (total - first_full)));
+    report.set("a_offsets", json!(offsets));
+    let opts = Opts { only_route: None, verbose: false };
+    vcommon::par_for(units.len(), 1, |i| {
+        let (ti, be, off, s, e) = units[i];
+        let u = Unit::new(&types[ti]);
+        let mut acc = Acc::default();
+        let mut idx = vec![];
+        let mut bytes: Vec<u8> = vec![];
+        let mut scratch = vec![];
+        zvx::with_fds(|fds| {
+            for n in s..e {
+                vcommon::enumerate::nth_string(k, n, &mut idx);
+                bytes.clear();
+                bytes.extend(idx.iter().map(|j| ALPHABET[*j]));
+                evaluate(&mut acc, "a", &u, &bytes, be, off, fds, &mut scratch, &opts);
+                if n >= first_full {
+                    bytes.extend_from_slice(&[0u8; 8]);
+                    evaluate(&mut acc, "a+zeros", &u, &bytes, be, off, fds, &mut scratch, &opts);
+                }
+            }
+        });
+        acc.flush(report);
+    });
+}
+
+// ------------------------------------------------------------------------------------------
+// part (b)
+// ------------------------------------------------------------------------------------------
+
+fn part_b(report: &Report, args: &Args) {
+    let corpus = zvx::corpus(3, false, CAP);
+    let offsets: &[usize] = args.tier.pick(&[0, 1, 4, 7], &[0, 1, 2, 3, 4, 5, 6, 7]);
+    let pairs = args.tier.pick(false, true);
+    report.set("b_types", json!(corpus.items.len()));
+    report.set("b_seed_values", json!(corpus.items.iter().map(|(_, v)| v.len()).sum::<usize>()));
+    report.set("b_offsets", json!(offsets));
+    if corpus.capped_types > 0 {
+        report.cap(format!(
+            "part (b): seed value lists of {} of {} types were reduced (per-type cap {CAP})",
+            corpus.capped_types,
+            corpus.items.len()
+        ));
+    }
+    let items = &corpus.items;
+    let opts = Opts { only_route: None, verbose: false };
+    vcommon::par_for(items.len(), 1, |i| {
+        let (ty, vals) = &items[i];
+        let u = Unit::new(ty);
+        let mut acc = Acc::default();
+        let mut scratch = vec![];
+        let mut seen = std::collections::HashSet::new();
+        zvx::with_fds(|fds| {
+            for v in vals {
+                for be in [false, true] {
+                    for &off in offsets {
+                        let enc = refdbus::encode(v, be, off).buf;
+                        if !seen.insert((enc.clone(), be, off % 8)) {
+                            continue;
+                        }
+                        acc.count("b_seed_encodings", 1);
+                        // the unmodified encoding
+                        evaluate(&mut acc, "b:seed", &u, &enc, be, off, fds, &mut scratch, &opts);
+                        // truncations
+                        for n in 0..enc.len() {
+                            evaluate(&mut acc, "b:truncation", &u, &enc[..n], be, off, fds, &mut scratch, &opts);
+                        }
+                        // single substitutions
+                        let mut m = enc.clone();
+                        for p in 0..enc.len() {
+                            for &a in &ALPHABET {
+                                if a == enc[p] {
+                                    continue;
+                                }
+                                m[p] = a;
+                                evaluate(&mut acc, "b:substitution", &u, &m, be, off, fds, &mut scratch, &opts);
+                                if pairs {
+                                    for q in p + 1..(p + 8).min(enc.len()) {
+                                        for &b in &ALPHABET {
+                                            if b == enc[q] {
+                                                continue;
+                                            }
+                                            m[q] = b;
+                                            evaluate(&mut acc, "b:pair", &u, &m, be, off, fds, &mut scratch, &opts);
+                                        }
+                                        m[q] = enc[q];
+                                    }
+                                }
+                            }
+                            m[p] = enc[p];
+                        }
+                    }
+                }
+            }
+        });
+        acc.flush(report);
+    });
+}
+
+// ------------------------------------------------------------------------------------------
+// part (c)
+// ------------------------------------------------------------------------------------------
+
+fn part_c(report: &Report, args: &Args) {
+    let kmax = args.tier.pick(5, 6);
+    let k = SIG_ALPHABET.len();
+    let total = vcommon::enumerate::count_strings(k, kmax);
+    report.set("c_signature_strings", json!(total));
+    report.set("c_max_len", json!(kmax));
+    const BLOCK: usize = 1 << 12;
+    let n_units = total.div_ceil(BLOCK);
+    let tv = Ty::V;
+    let tg = Ty::G;
+    let opts = Opts { only_route: None, verbose: false };
+    let dom = rv::Domain::standard(CAP);
+    vcommon::par_for(n_units, 1, |ui| {
+        let uv = Unit::new(&tv);
+        let ug = Unit::new(&tg);
+        let mut acc = Acc::default();
+        let mut idx = vec![];
+        let mut scratch = vec![];
+        zvx::with_fds(|fds| {
+            for n in ui * BLOCK..((ui + 1) * BLOCK).min(total) {
+                vcommon::enumerate::nth_string(k, n, &mut idx);
+                let sig: Vec<u8> = idx.iter().map(|j| SIG_ALPHABET[*j]).collect();
+                let s = std::str::from_utf8(&sig).unwrap();
+                for be in [false, true] {
+                    for off in [0usize, 5] {
+                        // as a `g`
+                        let mut g = vec![sig.len() as u8];
+                        g.extend_from_slice(&sig);
+                        g.push(0);
+                        evaluate(&mut acc, "c:g", &ug, &g, be, off, fds, &mut scratch, &opts);
+                        // as a `g` inside a variant
+                        let mut vg = vec![1, b'g', 0];
+                        vg.extend_from_slice(&g);
+                        evaluate(&mut acc, "c:v-of-g", &uv, &vg, be, off, fds, &mut scratch, &opts);
+                        // as the signature of a variant
+                        let mut v = g.clone();
+                        match rv::parse_ty(s).filter(|_| refdbus::valid_signature(s)) {
+                            Some(inner) => {
+                                let mut capped = false;
+                                let first = rv::values(&inner, &dom, &mut capped).remove(0);
+                                let body = refdbus::encode(&first, be, off + v.len());
+                                v.extend_from_slice(&body.buf);
+                            }
+                            None => v.extend_from_slice(&[0u8; 24]),
+                        }
+                        evaluate(&mut acc, "c:variant-signature", &uv, &v, be, off, fds, &mut scratch, &opts);
+                    }
+                }
+            }
+        });
+        acc.flush(report);
+    });
+}
+
+fn replay(path: &str) -> i32 {
+    let art = vcommon::load_replay(path);
+    let r = &art["replay"];
+    let (Some(sig), Some(bytes), Some(be), Some(off)) = (
+        r["sig"].as_str(),
+        r["bytes"].as_str(),
+        r["big_endian"].as_bool(),
+        r["offset"].as_u64(),
+    ) else {
+        vcommon::machinery_failure("C03 replay: malformed artefact");
+    };
+    let ty = rv::parse_ty(sig).unwrap_or_else(|| vcommon::machinery_failure("C03 replay: bad signature"));
+    let bytes = unhex(bytes);
+    println!(
+        "C03 replay: decode type `{sig}` from {} ({} bytes) {} at offset {off}, {} fds attached",
+        hex(&bytes),
+        bytes.len(),
+        if be { "BE" } else { "LE" },
+        zvx::N_FDS
+    );
+    let u = Unit::new(&ty);
+    let mut acc = Acc::default();
+    let mut scratch = vec![];
+    let opts = Opts { only_route: None, verbose: true };
+    zvx::with_fds(|fds| evaluate(&mut acc, "replay", &u, &bytes, be, off as usize, fds, &mut scratch, &opts));
+    let wanted = r["route"].as_str();
+    let mut hit = false;
+    for v in &acc.violations {
+        println!("observation: clause={} {}", v.clause, v.detail);
+        if wanted.is_none() || v.features.get("route").map(|s| s.as_str()) == wanted {
+            hit = true;
+        }
+    }
+    if !hit {
+        println!("observation: no clause violated on this case{}", wanted.map(|w| format!(" (route {w})")).unwrap_or_default());
+        0
+    } else {
+        1
+    }
+}
+
+pub fn main(args: &Args) -> i32 {
+    if let Some(p) = &args.replay {
+        return replay(p);
+    }
+    let report = Report::new("C03", args.tier, args.seed, "exploration");
+    let only = std::env::var("ZV_C03_PARTS").unwrap_or_else(|_| "abc".into());
+    if only.contains('a') {
+        part_a(&report, args);
+        report.set("a_wall_s", json!(report.elapsed_s()));
+    }
+    if only.contains('b') {
+        part_b(&report, args);
+        report.set("ab_wall_s", json!(report.elapsed_s()));
+    }
+    if only.contains('c') {
+        part_c(&report, args);
+    }
+    if only != "abc" {
+        report.cap(format!("only parts `{only}` were run (ZV_C03_PARTS)"));
+    }
+    // a few deterministic samples
+    for (sig, bytes, be, off) in [
+        ("s", "0100000061ff", false, 0usize),
+        ("ay", "0000000002000000010280", false, 1),
+        ("b", "00000002", true, 0),
+        ("v", "02797900000000", false, 0),
+        ("(yu)", "01ff000001000000", false, 0),
+    ] {
+        let ty = rv::parse_ty(sig).unwrap();
+        let b = unhex(bytes);
+        let r = refdbus::decode_ex(&ty, &b, be, off, zvx::N_FDS as u32);
+        report.sample(json!({"sig": sig, "bytes": bytes, "big_endian": be, "offset": off,
+            "reference": match &r { Ok((v, n)) => format!("accepts {} ({n} bytes)", v.show()), Err(i) => format!("rejects: {:?} ({} of `{}` at byte {})", i.reject, i.note, i.ty, i.pos) }}));
+    }
+    report.assume("refdbus::decode is the set of valid D-Bus encodings (strict unmarshaller written from the specification; audited against libdbus separately)");
+    report.assume("two fds are attached to every input; an `h` whose index is ≥ 2 is not decodable");
+    report.assume("repeated dict keys: both sides normalised to first key / last value; `g` values compared modulo one pair of outer parentheses; arrays longer than 64 MiB not judged");
+    report.finish(
+        "one evaluation = (type, byte string, endian, start offset, decode route); non-trivial = the reference accepts, or rejects for a reason other than running out of input; counted per distinct (type, endian, offset mod 8, verdict, bytes up to the end of the value / the first offending byte)",
+        true,
+    )
 }
